@@ -445,9 +445,15 @@ structure Rend where
   runJson : Nat → Nat → Text     -- run key, benchmark id
   comment : Nat → Text
   hdr : Text
+  /-- a profile data file: lines are `invocation, numIterations, run columns, run id, JSON`
+  (profile_data.py:27-30) -/
+  profile : Bool := false
 
 def measLineText (R : Rend) (run : Nat) (m : Meas) : Text :=
-  joinWith '\t' ([natText m.inv, natText m.it, m.value, R.unit m.crit, m.crit] ++ R.cols run ++ [natText m.runIdx])
+  if R.profile then
+    joinWith '\t' ([natText m.inv, natText m.it] ++ R.cols run ++ [natText m.runIdx, m.value])
+  else
+    joinWith '\t' ([natText m.inv, natText m.it, m.value, R.unit m.crit, m.crit] ++ R.cols run ++ [natText m.runIdx])
 
 def recText (R : Rend) (run : Nat) : Rec → Text
   | .bench id key => benchPrefix ++ natText id ++ '=' :: R.benchJson key
@@ -482,8 +488,10 @@ def commentOk (t : Text) : Bool :=
     && !sessionPrefix.isPrefixOf t
 
 /-- decidable conditions on the data points: values are `%f` numerals, criteria are plain fields
-and only the last measurement is called `total`; the run's columns are plain fields -/
+and only the last measurement is called `total`; the run's columns are plain fields (profile
+data file: no criteria, the JSON column is a plain field) -/
 def dpOk (R : Rend) (d : WDP) : Bool :=
+  if R.profile then d.crits.isEmpty && plainField d.total && (R.cols d.run).all plainField else
   d.crits.all (fun cv => plainField cv.1 && plainField cv.2 && pyFloatOk cv.2 && cv.1 != totalName
       && plainField (R.unit cv.1))
     && plainField (R.unit totalName) && plainField d.total && pyFloatOk d.total && (R.cols d.run).all plainField
